@@ -81,6 +81,9 @@ class AlgoAddrDecoder(IAddrDecoder):
 
         # Decode from base32
         addr_dec_bytes = Base32Decoder.Decode(addr)
+        # Only the canonical encoding is an address (no padding characters, unused bits of the last character zero)
+        if Base32Encoder.EncodeNoPadding(addr_dec_bytes) != addr:
+            raise ValueError("Invalid address (not in canonical form)")
         # Validate length
         AddrDecUtils.ValidateLength(addr_dec_bytes,
                                     Ed25519PublicKey.CompressedLength() + AlgoAddrConst.CHECKSUM_BYTE_LEN - 1)
